@@ -176,6 +176,12 @@ pub fn matrix(expression: Expression) -> Expression {
                 }
             }
 
+            // NOTE: A column is keyed by the char that has its index as code point, and 0xD800 is
+            // the first index that is not a char, so a wider group is left as it is.
+            if fields.len() > 0xD800 {
+                matrix = false;
+            }
+
             if matrix {
                 let mut columns: Vec<(String, u32)> = fields.into_iter().collect();
                 columns.sort_by(|x, y| x.1.cmp(&y.1));
